@@ -31,17 +31,17 @@ ALL_FIELDS = ["D", "F", "R", "P", "T", "E", "roots", "wroots", "vals", "raws", "
 # talks about (projection principle, DESIGN section 5), which oracle families judge it
 PROPS = {
     "C01": dict(streams=["corpus", "contract", "exh2", "exh3s", "api", "giveup", "large"], fields=["D", "E", "roots"], oracles=["O1"],
-                contract=True, title="no premature destruction"),
+                contract=True, title="no premature destruction", bigscen="O1"),
     "C02": dict(streams=["corpus", "contract", "weakheavy", "exh2", "script", "api", "giveup", "large"], fields=["D", "F", "E"], oracles=["O2"],
                 contract=True, title="values die at most once; no access after release", weakraw="O2"),
-    "C03": dict(streams=["corpus", "contract", "exh2", "exh3s", "api", "shallow", "large"], fields=["D"], oracles=["O3"], contract=True,
-                title="orphaned group destroyed in full, synchronously"),
-    "C04": dict(streams=["corpus", "contract", "weakheavy", "api", "exh2", "large"], fields=["F", "heapobjs"], oracles=["O4"],
-                contract=True, title="destroyed objects return all memory", leakcheck=True),
+    "C03": dict(streams=["corpus", "contract", "exh2", "exh3s", "api", "shallow", "large", "xl"], fields=["D"], oracles=["O3"], contract=True,
+                title="orphaned group destroyed in full, synchronously", bigscen="O3"),
+    "C04": dict(streams=["corpus", "contract", "weakheavy", "api", "exh2", "large", "xl"], fields=["F", "heapobjs"], oracles=["O4"],
+                contract=True, title="destroyed objects return all memory", bigscen="O4", leakcheck=True),
     "C05": dict(streams=["corpus", "weakheavy", "contract", "script", "api"], fields=["R", "F", "W", "wroots", "roots"],
-                oracles=["O5"], contract=True, title="Weak observes destruction exactly", weakraw="O5"),
+                oracles=["O5"], contract=True, title="Weak observes destruction exactly", bigscen="O5", weakraw="O5"),
     "C06": dict(streams=["corpus", "contract", "weakheavy", "raw", "api", "large"], fields=["heapcounts", "C", "W", "R", "roots", "wroots"],
-                oracles=["O6"], contract=False, title="counts and identity exact"),
+                oracles=["O6"], contract=False, title="counts and identity exact", bigscen="O6"),
     "C07": dict(streams=["noadopt"], fields=["D", "R", "roots", "wroots", "vals", "raws", "C", "W", "heapcounts"], oracles=[],
                 contract=False, title="without adoptions identical to std", std=True),
     "C08": dict(streams=["corpus", "contract", "raw", "exh2", "exh2e", "api", "giveup", "large"], fields=["heap"], oracles=["O8"], contract=False,
@@ -49,7 +49,7 @@ PROPS = {
     "C09": dict(streams=["contract_full", "exh2"], fields=["D", "heapcounts"], oracles=[], contract=True,
                 title="destroyed sets independent of layout", layout=True),
     "C10": dict(streams=["script", "corpus"], fields=[f for f in ALL_FIELDS if f != "T"], oracles=["O1", "O2", "O5", "O6", "O8"], contract=True,
-                title="re-entrant destructors"),
+                title="re-entrant destructors", bigscen="O5"),
     "C11": dict(streams=["panic", "shallow"], fields=["D", "P", "E", "F", "heapcounts", "roots"], oracles=["O1", "O2", "O5", "O6"],
                 contract=True, title="panicking destructor", panicapi=True),
     "C12": dict(streams=["api", "raw", "shallow", "giveup", "corpus", "large"], fields=["heap", "R", "E", "D", "F", "vals", "roots", "raws", "C", "W"],
@@ -68,7 +68,7 @@ SIZES = {  # stream -> (quick count, thorough count)
     "contract": (2500, 60000), "contract_full": (1500, 30000), "weakheavy": (1200, 30000), "raw": (1500, 40000),
     "api": (1500, 40000), "script": (1500, 40000), "panic": (1200, 30000), "elide": (1500, 30000),
     "noadopt": (1500, 40000), "abort": (150, 1500), "exh3s": (2500, 60000), "shallow": (1500, 30000),
-    "giveup": (1500, 30000), "large": (150, 4000),
+    "giveup": (1500, 30000), "large": (150, 4000), "xl": (2, 24),
 }
 
 
@@ -129,6 +129,8 @@ def make_stream(name, seed, tier):
         return list(gen.stream_giveup(seed, n))
     if name == "large":
         return list(gen.stream_large(seed, n))
+    if name == "xl":
+        return list(gen.xl_cases(seed, 2 if tier == "quick" else 24))
     if name == "exh2":
         cs = list(gen.exhaustive(2, 2)) + list(gen.exhaustive(2, 2, with_unrecorded=True)) + list(gen.exhaustive(2, 1, with_same=True))
         return cs
@@ -312,11 +314,12 @@ def shrink(pid, cfg, run, pred):
     ops = list(run.ops)
     best = run
     budget = 200
+    deadline = time.time() + 60          # shrinking is a convenience: bounded in attempts and in wall time
     chunk = max(1, len(ops) // 2)
-    while chunk >= 1 and budget > 0:
+    while chunk >= 1 and budget > 0 and time.time() < deadline:
         i = 0
         progressed = False
-        while i < len(ops) and budget > 0:
+        while i < len(ops) and budget > 0 and time.time() < deadline:
             cand = ops[:i] + ops[i + chunk:]
             budget -= 1
             try:
@@ -639,6 +642,14 @@ def main():
         if rc != 0 or not line.startswith("ok"):
             lab = cfg.get("weakraw") or "O4"
             extra_fail.append(("oracle", None, f"{lab}:weakraw scenario: " + (line or f"process died rc={rc}"), ["hexec weakraw", line]))
+    if cfg.get("bigscen"):
+        # scenario families far outside the sizes of the model-driven streams (70 000 handles, every held position of
+        # rings of hundreds of objects, 16 KiB payloads), implementation-only oracles
+        rc, o = sh([engine.HEXEC, "bigscen", pid], timeout=900)
+        line = o.strip().split("\n")[-1] if o.strip() else ""
+        extra_cov["big_scenarios"] = line or f"process died rc={rc}"
+        if rc != 0 or not line.startswith("ok"):
+            extra_fail.append(("oracle", None, f"{cfg['bigscen']}:bigscen: " + (line or f"process died rc={rc}"), [f"hexec bigscen {pid}", line]))
     if cfg.get("panicapi"):
         rc, o = sh([engine.HEXEC, "panicapi"], timeout=600)
         line = o.strip().split("\n")[-1] if o.strip() else ""
@@ -677,6 +688,7 @@ def main():
     oracle_bad = [("oracle", r, r.oracle_fails[0][1], r.explicit) for r in res["oracle_runs"]] + \
                  [e for e in extra_fail if e[0] == "oracle"]
     if oracle_bad:
+        oracle_bad.sort(key=lambda e: len(e[3]) if e[3] else 0)
         kind, r, msg, ops = oracle_bad[0]
         if r is not None and r.oracle_fails:
             want = r.oracle_fails[0][1][:3]
@@ -701,7 +713,7 @@ def main():
                 esc = []
             res2 = judge(pid, cfg, esc)
             if res2["oracle_runs"]:
-                r = res2["oracle_runs"][0]
+                r = min(res2["oracle_runs"], key=lambda x: len(x.ops))
                 path = write_replay(pid, seed, "oracle", r, dict(message=r.oracle_fails[0][1], escalated=True))
                 out_lines.append(f"VIOLATION property={pid} replay={path}")
                 violations = len(res2["oracle_runs"])
@@ -711,7 +723,7 @@ def main():
                               audit={k: aud[k] for k in ("forbidden", "bad_axioms", "raw")}, message=lean_msg[-1500:])
                 r = None
             else:
-                r = res["diff_runs"][0]
+                r = min(res["diff_runs"], key=lambda x: len(x.ops))
                 d0 = r.diffs[0]
 
                 def pred2(nr):
